@@ -97,7 +97,7 @@ func FinishVoid(fns ...func()) {
 // ForEach maps all elements from given generate but no output.
 func ForEach[T any](generate GenerateFunc[T], mapper ForEachFunc[T], opts ...Option) {
 	options := buildOptions(opts...)
-	panicChan := &onceChan{channel: make(chan any)}
+	panicChan := newOnceChan()
 	source := buildSource(generate, panicChan)
 	collector := make(chan any)
 	done := make(chan struct{})
@@ -120,6 +120,10 @@ func ForEach[T any](generate GenerateFunc[T], mapper ForEachFunc[T], opts ...Opt
 			panic(v)
 		case _, ok := <-collector:
 			if !ok {
+				// a panic captured before the mappers finished takes precedence
+				if v, captured := panicChan.read(); captured {
+					panic(v)
+				}
 				return
 			}
 		}
@@ -130,7 +134,7 @@ func ForEach[T any](generate GenerateFunc[T], mapper ForEachFunc[T], opts ...Opt
 // and reduces the output elements with given reducer.
 func MapReduce[T, U, V any](generate GenerateFunc[T], mapper MapperFunc[T, U], reducer ReducerFunc[U, V],
 	opts ...Option) (V, error) {
-	panicChan := &onceChan{channel: make(chan any)}
+	panicChan := newOnceChan()
 	source := buildSource(generate, panicChan)
 	return mapReduceWithPanicChan(source, panicChan, mapper, reducer, opts...)
 }
@@ -138,7 +142,7 @@ func MapReduce[T, U, V any](generate GenerateFunc[T], mapper MapperFunc[T, U], r
 // MapReduceChan maps all elements from source, and reduce the output elements with given reducer.
 func MapReduceChan[T, U, V any](source <-chan T, mapper MapperFunc[T, U], reducer ReducerFunc[U, V],
 	opts ...Option) (V, error) {
-	panicChan := &onceChan{channel: make(chan any)}
+	panicChan := newOnceChan()
 	return mapReduceWithPanicChan(source, panicChan, mapper, reducer, opts...)
 }
 
@@ -320,6 +324,10 @@ func mapReduceWithPanicChan[T, U, V any](source <-chan T, panicChan *onceChan, m
 	case v, ok := <-output:
 		if e := retErr.Load(); e != nil {
 			err = e
+		} else if p, captured := panicChan.read(); captured {
+			// a panic captured before the reducer finished takes precedence
+			drain(output)
+			panic(p)
 		} else if ok {
 			val = v
 		} else {
@@ -372,6 +380,21 @@ func (gw guardedWriter[T]) Write(v T) {
 type onceChan struct {
 	channel chan any
 	wrote   int32
+}
+
+// newOnceChan returns an onceChan that buffers its only value, thus write never blocks,
+// even if nobody reads the channel anymore.
+func newOnceChan() *onceChan {
+	return &onceChan{channel: make(chan any, 1)}
+}
+
+func (oc *onceChan) read() (any, bool) {
+	select {
+	case v := <-oc.channel:
+		return v, true
+	default:
+		return nil, false
+	}
 }
 
 func (oc *onceChan) write(val any) {
